@@ -171,7 +171,7 @@ def drv(keys, ops):
                     lib.add(b, fail_on_duplicate_key=(name == "addf"))
                 except ValueError:
                     raised = True
-        elif name == "add2":
+        elif name in ("add2", "add2f"):
             b1 = arg(lib, u, op[1])
             b2 = arg(lib, u, op[2])
             if b1 is None or b2 is None:
@@ -182,8 +182,9 @@ def drv(keys, ops):
                 live_mid = pre + ([] if d1 else [b1])
                 d2 = live_collision(live_mid, b2, -1)
                 expected = mid + [("dup", b2) if d2 else b2]
+                should_raise = (d1 or d2) and name == "add2f"
                 try:
-                    lib.add([b1, b2])
+                    lib.add([b1, b2], fail_on_duplicate_key=(name == "add2f"))
                 except ValueError:
                     raised = True
         elif name == "remove":
@@ -252,6 +253,10 @@ def drv(keys, ops):
         flags["raises-iff-expected"] = raised == should_raise
         if raised:
             flags["rollback"] = same_list(lib.blocks, pre) and lib._entries_by_key == pre_e and lib._strings_by_key == pre_s
+            if name in ("addf", "add2f"):
+                # the known finding (documented behaviour): EVERY block of the call is held, duplicates wrapped, and then the
+                # call raises.  Anything else than "rolled back" or "exactly that" is a different violation.
+                flags["raised-add-state"] = flags["rollback"] or same_list(lib.blocks, expected)
         else:
             flags["blocks-as-expected"] = same_list(lib.blocks, expected)
         flags["invariant-and-views"] = invariant(lib)
@@ -274,7 +279,7 @@ def known_key(fails, log):
     """classification used for the known-findings file"""
     keys = set()
     for step, name, flag in fails:
-        if name == "addf" and flag == "rollback":
+        if name in ("addf", "add2f") and flag == "rollback":
             keys.add("add[fail_on_duplicate_key=True]-mutates-before-raising")
         else:
             keys.add(f"{name}:{flag}")
@@ -345,6 +350,8 @@ def op_space():
         ops.append(("addf", a))
     for a, b in ((("u", 0), ("u", 1)), (("u", 2), ("u", 3)), (("u", 0), ("u", 4)), (("u", 1), ("u", 0))):
         ops.append(("add2", a, b))
+    for a, b in ((("u", 0), ("u", 1)), (("u", 0), ("u", 4)), (("u", 2), ("u", 1))):
+        ops.append(("add2f", a, b))
     for a in us[:5] + hs + [("u", 5), ("u", 7)]:
         ops.append(("remove", a))
     for a, b in ((("h", 0), ("h", 1)), (("h", 0), ("u", 6)), (("u", 0), ("u", 1)), (("u", 5), ("h", 0))):
@@ -375,9 +382,9 @@ def main():
         core = [o for o in adds if (o[0] == "add" and o[1][1] <= 3) or o in (("add2", ("u", 0), ("u", 1)), ("add2", ("u", 2), ("u", 3)))]
         # depth 3: first call populates; depth 4: two populating calls from the core adds, then a non-add, then anything
         hist = [h for h in hist if len(h) <= 2 or (len(h) == 3 and h[0] in adds)
-                or (len(h) == 4 and h[0] in core and h[1] in core and h[2][0] not in ("add", "add2", "addf"))]
+                or (len(h) == 4 and h[0] in core and h[1] in core and h[2][0] not in ("add", "add2", "addf", "add2f"))]
     chk.bounds = {"universe": "u0 Entry without fields, u1 Entry; u2 String with empty value, u3 String; u4 Preamble; u5 ExplicitComment; u6 ParsingFailedBlock; u7 a second ExplicitComment equal in value to u5; every Entry/String key one symbolic character over {a,b}",
-                  "operations": f"{len(ops)} concrete operation shapes (add, add with fail_on_duplicate_key, add of a 2-list, remove, remove of a 2-list, replace in both fail modes; arguments = universe blocks or currently held blocks h0/h1)",
+                  "operations": f"{len(ops)} concrete operation shapes (add, add with fail_on_duplicate_key, add of a 2-list with and without the flag, remove, remove of a 2-list, replace in both fail modes; arguments = universe blocks or currently held blocks h0/h1)",
                   "histories": f"{len(hist)} histories of <= {depth} calls from the empty library"}
     chk.assumptions = ["histories longer than the bound are covered inductively only in the sense that every step is checked against the pre-state it actually runs from (per-step frame conditions + invariant), for the pre-states reachable within the bound",
                        "keys are one character over {a,b}"]
